@@ -124,7 +124,14 @@ def mutate_attr(
 
     # If not inplace, copy before writing new value for attribute
     if not (inplace or metadata and metadata.do_not_copy):
+        # `value` may be the very object the attribute already holds (e.g.
+        # `update_<attr>()` with nothing to update, or a transform returning
+        # its input); the copy must then keep its own copy of it rather than
+        # share the original's object.
+        keeps_value = value is getattr(obj, "__dict__", {}).get(attr, MISSING)
         obj = copy.deepcopy(obj)
+        if keeps_value:
+            value = getattr(obj, "__dict__", {}).get(attr, value)
 
     # Perform actual mutation
     try:
